@@ -283,3 +283,23 @@ impl<M: Math, R: rand::Rng, A: AdaptStrategy<M>> SamplerStats<M> for NutsChain<M
         }
     }
 }
+
+#[cfg(nuts_rs_verif)]
+impl<M, R, A> NutsChain<M, R, A>
+where
+    M: Math,
+    R: rand::Rng,
+    A: AdaptStrategy<M>,
+{
+    pub fn verif_strategy(&self) -> &A {
+        &self.strategy
+    }
+
+    pub fn verif_hamiltonian(&self) -> &A::Hamiltonian {
+        &self.hamiltonian
+    }
+
+    pub fn verif_state(&self) -> &State<M, <A::Hamiltonian as Hamiltonian<M>>::Point> {
+        &self.state
+    }
+}
